@@ -32,18 +32,18 @@ theorem aggSpec_WF (keys : List (Name × Expr)) (aggs : List (Name × AExpr)) (T
 
 /-- body of `GroupedData.agg` (no grouping sets) on a block that is ready for a SELECT -/
 theorem bodyAgg_plain (keys : List (Name × Expr)) (aggs : List (Name × AExpr)) (d : DF) (hi : Inv d) (hr : Ready d)
-    (hwf : aggsWF d.eval.cols keys aggs) :
+    (hwf : aggsWF d.eval.cols keys aggs) (hn : ∀ k ∈ keys, k.2.isIntLit = false) :
     Fresh (bodyAgg keys none aggs d) ∧ (bodyAgg keys none aggs d).eval = aggSpec keys aggs d.eval := by
   have hsrc : (bodyAgg keys none aggs d).src = aggSpec keys aggs d.eval := by
     simp only [bodyAgg, hr.2.1, hr.2.2.1, hr.2.2.2, and_self, if_true]
-    rw [evalGBlock_spec _ _ _ _ hwf.2.1, ready_eval d hi hr]
+    rw [evalGBlock_spec _ _ _ _ hwf.2.1 hn, ready_eval d hi hr]
   have hf : Fresh (bodyAgg keys none aggs d) := by
     refine ⟨?_, rfl, rfl, rfl, rfl, rfl⟩
     rw [hsrc]; exact aggSpec_WF keys aggs _ hwf.1
   exact ⟨hf, by rw [fresh_eval _ hf, hsrc]⟩
 
 theorem groupAgg_df (d : DF) (hi : Inv d) (keys : List (Name × Expr)) (aggs : List (Name × AExpr))
-    (hwf : aggsWF d.eval.cols keys aggs) :
+    (hwf : aggsWF d.eval.cols keys aggs) (hn : ∀ k ∈ keys, k.2.isIntLit = false) :
     ((d.groupBy keys).agg aggs).eval = aggSpec keys aggs d.eval ∧ Fresh ((d.groupBy keys).agg aggs) := by
   have hg : Op.groupBy ≠ Op.noOp := by decide
   have hs : Op.select ≠ Op.noOp := by decide
@@ -54,7 +54,7 @@ theorem groupAgg_df (d : DF) (hi : Inv d) (keys : List (Name × Expr)) (aggs : L
   have hr2 := enter_ready .select hs (by decide) (enter .groupBy d) hi1
   simp only [GroupedData.agg, DF.groupBy, htag, hatag, enterOp_some, wrapperGroup_eq, wrapper_eq _ hs]
   have hwf' : aggsWF (enter .select (enter .groupBy d)).eval.cols keys aggs := by rw [he2, he1]; exact hwf
-  obtain ⟨hf, hev⟩ := bodyAgg_plain keys aggs _ hi2 hr2 hwf'
+  obtain ⟨hf, hev⟩ := bodyAgg_plain keys aggs _ hi2 hr2 hwf' hn
   refine ⟨?_, hf.setLast _⟩
   show (bodyAgg keys none aggs (enter .select (enter .groupBy d))).eval = _
   rw [hev, he2, he1]
@@ -65,7 +65,7 @@ theorem dfAgg_df (d : DF) (hi : Inv d) (aggs : List (Name × AExpr)) (hwf : aggs
   have htag : tag_agg = some Op.select := rfl
   obtain ⟨hi1, he1⟩ := enter_inv .select d hi
   simp only [DF.aggAll, htag, wrapper_eq _ hs]
-  obtain ⟨hev, hf⟩ := groupAgg_df (enter .select d) hi1 [] aggs (by rw [he1]; exact hwf)
+  obtain ⟨hev, hf⟩ := groupAgg_df (enter .select d) hi1 [] aggs (by rw [he1]; exact hwf) (fun k hk => absurd hk (by simp))
   refine ⟨?_, hf.setLast _⟩
   show (((enter .select d).groupBy []).agg aggs).eval = _
   rw [hev, he1]
@@ -109,7 +109,21 @@ def GStep.okForChain : GStep → Bool
   | .plain s => !s.isOrderBy && s.inTheorem
   | .group g => !g.isCube
 
-theorem applyG_step (d : DF) (s : GStep) (hi : Inv d) (hs : s.WF d.eval.cols) (hok : s.okForChain = true) :
+/-- under `H_intLiteralKey` no key of the step is an integer literal -/
+theorem keys_not_intLit (g : GOp) (hc : g.isCube = false) (hn : g.intLitKeyInGroupBy = false)
+    (keys : List (Name × Expr)) (aggs : List (Name × AExpr)) (hp : g.specParts = some (keys, aggs)) :
+    ∀ k ∈ keys, k.2.isIntLit = false := by
+  have hkeep : groupByKeeps .numLit = true := groupByKeeps_all _
+  simp only [GOp.intLitKeyInGroupBy, hp, hc, Bool.false_eq_true, if_false, hkeep, Bool.true_and] at hn
+  intro k hk
+  cases h : k.2.isIntLit with
+  | false => rfl
+  | true =>
+    have : keys.any (fun k => k.2.isIntLit) = true := List.any_eq_true.mpr ⟨k, hk, h⟩
+    rw [this] at hn; exact absurd hn (by decide)
+
+theorem applyG_step (d : DF) (s : GStep) (hi : Inv d) (hs : s.WF d.eval.cols) (hok : s.okForChain = true)
+    (hn : s.intLitKeyInGroupBy = false) :
     (d.applyG s).eval = specG d.eval s ∧ Inv (d.applyG s) := by
   cases s with
   | plain s =>
@@ -128,6 +142,7 @@ theorem applyG_step (d : DF) (s : GStep) (hi : Inv d) (hs : s.WF d.eval.cols) (h
     | some p =>
       obtain ⟨keys, aggs⟩ := p
       rw [hp] at hs
+      have hnk := keys_not_intLit g hc hn keys aggs hp
       simp only [hc, Bool.false_eq_true, if_false]
       by_cases hd : g.isDfAgg = true
       · have hk : keys = [] := by
@@ -137,7 +152,7 @@ theorem applyG_step (d : DF) (s : GStep) (hi : Inv d) (hs : s.WF d.eval.cols) (h
         obtain ⟨he, hf⟩ := dfAgg_df d hi aggs hs
         exact ⟨he, hf.inv⟩
       · rw [if_neg hd]
-        obtain ⟨he, hf⟩ := groupAgg_df d hi keys aggs hs
+        obtain ⟨he, hf⟩ := groupAgg_df d hi keys aggs hs hnk
         exact ⟨he, hf.inv⟩
 
 /-! ### cube -/
@@ -206,8 +221,53 @@ theorem cube_set_rows (keys S : List (Name × Expr)) (aggs : List (Name × AExpr
     rw [hkeys kv]
     simp only [List.map_map, Function.comp_def]
 
+/-- the grouping-sets block when every set is read as written and every key is grouped in some set:
+    a key outside the current set is NULL -/
+def gsTable (wher : List Expr) (sets : List (List Expr)) (keys : List (Name × Expr)) (aggs : List (Name × AExpr)) (T0 : Table) : Table :=
+  { cols := keys.map (·.1) ++ aggs.map (·.1),
+    rows := sets.flatMap (fun S =>
+      (if S = [] then [([], stWhere wher T0)] else groupR (fun r => S.map (eval T0.cols r)) (stWhere wher T0)).map (fun kg =>
+        keys.map (fun k => if k.2 ∈ S then keyValue S kg.1 k.2 else .null) ++
+        aggs.map (fun a => evalAExpr T0.cols kg.2 a.2))) }
+
+/-- **grouping sets are read as written** when no key is an integer literal (no positional reading), every
+    key reaches its set's tuple (the regenerated filter keeps everything) and the full key list is one of the sets -/
+theorem evalGSBlock_sets (wher : List Expr) (keys : List (Name × Expr)) (aggs : List (Name × AExpr)) (T0 : Table)
+    (Ss : List (List (Name × Expr))) (hn : ∀ k ∈ keys, k.2.isIntLit = false)
+    (hsub : ∀ S ∈ Ss, ∀ k ∈ S, k ∈ keys) (hfull : keys ∈ Ss) :
+    evalGSBlock { wher := wher, sets := Ss.map groupingSetList, keys := keys, aggs := aggs } T0
+      = gsTable wher (Ss.map (fun S => S.map (·.2))) keys aggs T0 := by
+  have hsets : Ss.map groupingSetList = Ss.map (fun S => S.map (·.2)) :=
+    List.map_congr_left (fun S _ => groupingSetList_eq S)
+  have hres : resolveSets (keys.map (fun k => (k.1, GItem.key k.2)) ++ aggs.map (fun a => (a.1, GItem.agg a.2)))
+      (Ss.map (fun S => S.map (·.2))) = some (Ss.map (fun S => S.map (·.2))) := by
+    apply resolveSets_self
+    intro S hS e he
+    obtain ⟨S', hS', rfl⟩ := List.mem_map.mp hS
+    obtain ⟨k, hk, rfl⟩ := List.mem_map.mp he
+    exact hn k (hsub S' hS' k hk)
+  simp only [evalGSBlock, hsets, hres, gsTable]
+  congr 1
+  apply flatMap_congr_mem
+  intro S _
+  apply List.map_congr_left
+  intro kg _
+  congr 1
+  apply List.map_congr_left
+  intro k hk
+  have hany : (Ss.map (fun S => S.map (·.2))).any (fun S' => decide (k.2 ∈ S')) = true := by
+    rw [List.any_eq_true]
+    exact ⟨keys.map (·.2), List.mem_map.mpr ⟨keys, hfull, rfl⟩, by simpa using ⟨k.1, by simpa using hk⟩⟩
+  simp [hany]
+
+theorem keys_mem_cubeSets {α} (keys : List α) : keys ∈ cubeSets keys :=
+  (cubeSets_perm keys).mem_iff.mpr ((mem_sublistsL keys keys).mpr (List.Sublist.refl _))
+
+theorem cubeSets_subset {α} (keys S : List α) (h : S ∈ cubeSets keys) : ∀ x ∈ S, x ∈ keys :=
+  sublistsL_subset keys S ((cubeSets_perm keys).mem_iff.mp h)
+
 theorem cube_df (d : DF) (hi : Inv d) (keys : List (Name × Expr)) (aggs : List (Name × AExpr))
-    (hwf : aggsWF d.eval.cols keys aggs) (hne : d.eval.rows ≠ []) :
+    (hwf : aggsWF d.eval.cols keys aggs) (hne : d.eval.rows ≠ []) (hn : ∀ k ∈ keys, k.2.isIntLit = false) :
     ((d.cube keys).agg aggs).eval.cols = (cubeSpec keys aggs d.eval).cols ∧
     ((d.cube keys).agg aggs).eval.rows.Perm (cubeSpec keys aggs d.eval).rows ∧
     Inv ((d.cube keys).agg aggs) := by
@@ -223,20 +283,21 @@ theorem cube_df (d : DF) (hi : Inv d) (keys : List (Name × Expr)) (aggs : List 
   have hcols : d.eval.cols = d2.src.cols := by rw [← he2, hev]
   -- the frozen result
   have hsrc : (bodyAgg keys (some (cubeSets keys)) aggs d2).src =
-      evalGSBlock { wher := d2.blk.wher, sets := (cubeSets keys).map (fun S => S.map (·.2)), keys := keys, aggs := aggs } d2.src := by
+      gsTable d2.blk.wher ((cubeSets keys).map (fun S => S.map (·.2))) keys aggs d2.src := by
     simp only [bodyAgg, hr2.2.1, hr2.2.2.1, hr2.2.2.2, and_self, if_true]
+    exact evalGSBlock_sets _ keys aggs _ (cubeSets keys) hn (cubeSets_subset keys) (keys_mem_cubeSets keys)
   -- rows of the engine's result, set by set
-  have hrowsEq : (evalGSBlock { wher := d2.blk.wher, sets := (cubeSets keys).map (fun S => S.map (·.2)), keys := keys, aggs := aggs } d2.src).rows.Perm
+  have hrowsEq : (gsTable d2.blk.wher ((cubeSets keys).map (fun S => S.map (·.2))) keys aggs d2.src).rows.Perm
       (cubeSpec keys aggs d.eval).rows := by
-    simp only [evalGSBlock, cubeSpec, List.flatMap_map]
+    simp only [gsTable, cubeSpec, List.flatMap_map]
     rw [← hrows, ← hcols]
     refine ((cubeSets_perm keys).flatMap_right _).trans ?_
     rw [flatMap_congr_mem (sublistsL keys) _ _
       (fun S hS => cube_set_rows keys S aggs d.eval.cols d.eval.rows hwf.2.1 (sublistsL_subset keys S hS) hne)]
-  have hlen : ∀ r ∈ (evalGSBlock { wher := d2.blk.wher, sets := (cubeSets keys).map (fun S => S.map (·.2)), keys := keys, aggs := aggs } d2.src).rows,
+  have hlen : ∀ r ∈ (gsTable d2.blk.wher ((cubeSets keys).map (fun S => S.map (·.2))) keys aggs d2.src).rows,
       r.length = (keys.map (·.1) ++ aggs.map (·.1)).length := by
     intro r hr
-    simp only [evalGSBlock, List.mem_flatMap, List.mem_map] at hr
+    simp only [gsTable, List.mem_flatMap, List.mem_map] at hr
     obtain ⟨_, _, _, _, rfl⟩ := hr
     simp
   have hf : Fresh (bodyAgg keys (some (cubeSets keys)) aggs d2) := by
